@@ -26,7 +26,7 @@ EXPLANATION = ('C05: K<=2 events (exclusive operations, overlapping non-exclusiv
 
 EVENTS = (scen.EV_CHECK, scen.EV_EXIT, scen.EV_XKILL, scen.EV_INCR, scen.EV_DECR, scen.EV_SETNP, scen.EV_RESTART, scen.EV_RELOAD,
           scen.EV_RELOAD_SEQ, scen.EV_RELOAD_TERM, scen.EV_TIME, scen.EV_STOP, scen.EV_START, scen.EV_KILLCMD, scen.EV_SIGNALCMD,
-          scen.EV_SETOPT, scen.EV_INCR_BIG)
+          scen.EV_SETOPT, scen.EV_INCR_BIG, scen.EV_KILL0)
 READONLY = ('status', 'list', 'numprocesses', 'options', 'numwatchers', 'globaloptions', 'listsockets', 'dstats')
 STOPPING = (scen.EV_RESTART, scen.EV_RELOAD_SEQ, scen.EV_RELOAD_TERM, scen.EV_STOP, scen.EV_RELOAD, scen.EV_DECR, scen.EV_SETNP,
             scen.EV_SETOPT, scen.EV_CHECK, scen.EV_INCR)
@@ -73,7 +73,15 @@ def c05_block(e1: int, p1: int, e2: int, p2: int, g2: int, d: int) -> bool:
         wa = w.mk_watcher('a', numprocesses=S.get('n0', 2), graceful_timeout=_gt(), warmup_delay=warm,
                           respawn=S.get('respawn', True))
         wb = w.mk_watcher('b', numprocesses=1, graceful_timeout=_gt())
-        w.boot([wa, wb])
+        extra = {}
+        if S.get('on_demand'):
+            from circus.sockets import CircusSocket
+            _sock = CircusSocket(name='web', host='127.0.0.1', port=0)       # a managed socket nobody connects to
+            wc = w.mk_watcher('c', numprocesses=1, graceful_timeout=_gt(), on_demand=True, use_sockets=True)
+            extra = {'sockets': [_sock]}
+            w.boot([wa, wb, wc], **extra)
+        else:
+            w.boot([wa, wb])
         if S.get('dmax', 0) > 0 and d > 0:
             k.injections.append({'at_call': k.calls + d, 'victim': ('nth', 0), 'status': core.status_signal(9)})
         sc = Sched(w)
@@ -131,6 +139,9 @@ def c05_block(e1: int, p1: int, e2: int, p2: int, g2: int, d: int) -> bool:
                     if in_region and rt.finding_listed('c05.reap_process_busy_wait'):
                         continue
                     rt.note('waiting request %s never answered', r.msg['command'])
+                    ok = False
+                elif e == scen.EV_KILL0 and r.t_reply - r.t_sent > 0.2 and not in_region:
+                    rt.note('kill with graceful_timeout=0 answered after %.3f s', r.t_reply - r.t_sent)
                     ok = False
                 elif r.t_reply - r.t_sent > bound + 1e-6:
                     rt.note('request %s answered after %.3f s (bound %.3f)', r.msg['command'], r.t_reply - r.t_sent, bound)
@@ -192,6 +203,7 @@ def plan(tier):
     for e in (4, 6, 8, 9, 11):      # graceful_timeout 0 with workers that ignore the stop signal
         sh.append({'e1': e, 'beh': 2, 'gt': 0})
     sh.append({'e1': 16, 'beh': 0, 'spawn_cost': 0.005})      # many spawns: fork/exec (5 ms each) must not pile up in one loop turn
+    sh.append({'e1': 0, 'beh': 0, 'on_demand': True})          # a stopped on_demand watcher waiting for its first connection
     sh.append({'e1': 12, 'beh': 0, 'respawn': False})
     sh.append({'e1': 3, 'beh': 0, 'warm': 0.3})
     return [
